@@ -169,6 +169,10 @@ func MkSlice(arr, off, ln, cp Term) Term {
 	return Term{S: "(mk_slice " + arr.S + " " + off.S + " " + ln.S + " " + cp.S + ")", Sort: SSlice}
 }
 
+// At is the cell index of element i of slice s in its backing array (= off+i);
+// an uninterpreted function so that it can serve as a quantifier trigger.
+func At(s, i Term) Term { return Term{S: "(at " + s.S + " " + i.S + ")", Sort: SInt} }
+
 var NilSlice = Term{S: "(mk_slice 0 0 0 0)", Sort: SSlice}
 
 func Add(a, b Term) Term { return Term{S: "(+ " + a.S + " " + b.S + ")", Sort: SInt} }
@@ -352,6 +356,8 @@ const preludeBase = `
 (define-sort F64 () (_ FloatingPoint 11 53))
 (declare-datatypes ((Slice 0)) (((mk_slice (sl_arr Int) (sl_off Int) (sl_len Int) (sl_cap Int)))))
 (declare-datatypes ((Val 0)) (((VNil) (VInt (vint Int)) (VUint (vuint Int)) (VFloat (vfloat F64)) (VStr (vstr String)) (VBool (vbool Bool)) (VOther (vtag Int) (vpay Int)))))
+(declare-fun at (Slice Int) Int)
+(assert (forall ((s Slice) (i Int)) (! (= (at s i) (+ (sl_off s) i)) :pattern ((at s i)))))
 (define-fun rank ((a Val)) Int (ite ((_ is VNil) a) 0 (ite ((_ is VInt) a) 1 (ite ((_ is VUint) a) 2 (ite ((_ is VFloat) a) 3 (ite ((_ is VStr) a) 4 (ite ((_ is VBool) a) 5 6)))))))
 (define-fun isnan ((a Val)) Bool (and ((_ is VFloat) a) (fp.isNaN (vfloat a))))
 (define-fun ordv ((a Val)) Bool (and (>= (rank a) 1) (<= (rank a) 4) (not (isnan a))
